@@ -1,1 +1,440 @@
-/-! # C16 — property theorems (stub) -/
+import Okane.Model.ImportCsv
+import Okane.Lemmas.ImportTxn
+/-!
+# C16 — CSV import books each row with the right sign, amount and balance
+
+Model: `Okane.Import.csvImport` (`Model/ImportCsv.lean`, mirror of `cli/src/import/csv.rs` after decoding) on top of
+`Txn` / `toDoubleEntry` (`Model/Import.lean`), composed with the book-keeping model `process` (`Model/Process.lean`).
+All theorems hold for every number parser, date parser and regex engine (`CsvEnv`).
+-/
+namespace Okane.Import
+open Okane
+
+/-! ## sign and amount -/
+
+/-- what a non-empty cell means to `str_to_comma_decimal` -/
+theorem strToCommaDecimal_some (env : CsvEnv) (s : String) (v : Option Dec) (h : strToCommaDecimal env s = .ok v)
+    (hs : s.isEmpty = false) : ∃ d, v = some d ∧ env.parseAmt s = some d := by
+  unfold strToCommaDecimal at h
+  simp only [hs] at h
+  cases hp : env.parseAmt s with
+  | none => simp [hp] at h
+  | some d => simp [hp] at h; exact ⟨d, h.symm, rfl⟩
+
+/-- **C16_sign (credit/debit columns).**  With a credit and a debit column the row moves the account by
+`+credit` when the credit cell is non-empty and by `−debit` otherwise — whatever the account type. -/
+theorem C16_sign_credit_debit (env : CsvEnv) (fm : FieldMap) (at_ : AccountType) (rec : List String)
+    (cf df : CsvField) (a : Dec) (hv : fm.value = .creditDebit cf df) (h : fm.amount env at_ rec = .ok a) :
+    ∃ credit debit, fm.resolve .credit cf rec = .ok (some credit) ∧ fm.resolve .debit df rec = .ok (some debit) ∧
+      ((credit.isEmpty = false ∧ env.parseAmt credit = some a) ∨
+       (credit.isEmpty = true ∧ debit.isEmpty = false ∧ ∃ d, env.parseAmt debit = some d ∧ a = d.negate)) := by
+  unfold FieldMap.amount at h
+  simp only [hv] at h
+  split at h <;> try (simp at h; done)
+  rename_i credit hc
+  split at h <;> try (simp at h; done)
+  rename_i debit hd
+  refine ⟨credit, debit, hc, hd, ?_⟩
+  by_cases hce : credit.isEmpty = true
+  · simp only [hce, Bool.not_true, Bool.false_eq_true, if_false] at h
+    by_cases hde : debit.isEmpty = true
+    · simp [hde] at h
+    · have hde' : debit.isEmpty = false := by simpa using hde
+      simp only [hde', Bool.not_false, if_true] at h
+      split at h <;> try (simp at h; done)
+      rename_i v hs
+      obtain ⟨d, hv', hp⟩ := strToCommaDecimal_some env debit v hs hde'
+      subst hv'
+      simp at h
+      exact Or.inr ⟨hce, hde', d, hp, h.symm⟩
+  · have hce' : credit.isEmpty = false := by simpa using hce
+    simp only [hce', Bool.not_false, if_true] at h
+    split at h <;> try (simp at h; done)
+    rename_i v hs
+    obtain ⟨d, hv', hp⟩ := strToCommaDecimal_some env credit v hs hce'
+    subst hv'
+    simp at h
+    subst h
+    exact Or.inl ⟨hce', hp⟩
+
+/-- **C16_sign (amount column).**  With an `amount` column the row moves an asset account by the amount and a
+liability account by its negation (an empty cell counts as zero). -/
+theorem C16_sign_amount (env : CsvEnv) (fm : FieldMap) (at_ : AccountType) (rec : List String)
+    (f : CsvField) (a : Dec) (hv : fm.value = .amount f) (h : fm.amount env at_ rec = .ok a) :
+    ∃ cell v, fm.resolve .amount f rec = .ok (some cell) ∧ strToCommaDecimal env cell = .ok v ∧
+      (at_ = .asset → a = v.getD {}) ∧ (at_ = .liability → a = (v.getD {}).negate) := by
+  unfold FieldMap.amount at h
+  simp only [hv] at h
+  split at h <;> try (simp at h; done)
+  rename_i cell hc
+  split at h <;> try (simp at h; done)
+  rename_i v hs
+  simp at h
+  refine ⟨cell, v, hc, hs, ?_, ?_⟩ <;> intro hat <;> subst hat <;> exact h.symm
+
+theorem readRow_amount (env : CsvEnv) (cfg : CsvCfg) (fm : FieldMap) (rec : List String) (v : RowValues)
+    (h : readRow env cfg fm rec = .ok (some v)) : fm.amount env cfg.accountType rec = .ok v.amount := by
+  unfold readRow at h
+  simp only [bind, Outcome.bind] at h
+  repeat' split at h
+  all_goals first | (simp at h; done) | skip
+  all_goals (simp at h; try (subst h; assumption))
+
+/-- everything `csv::import` does before the conversion block leaves the amount, date, balance as read, no rate,
+no transferred amount, and at most one charge (non-zero, in the row's commodity). -/
+theorem baseTxn_spec (env : CsvEnv) (cfg : CsvCfg) (fm : FieldMap) (rec : List String) (v : RowValues) (t : Txn)
+    (h : baseTxn env cfg fm rec v = .ok t) :
+    t.amount = ⟨v.amount, v.commodity⟩ ∧ t.date = v.date ∧ t.rates = [] ∧ t.transferredAmount = none ∧
+    t.balance = v.balance.map (fun b => ⟨b, v.commodity⟩) ∧
+    t.destAccount = (rowFragment env cfg v).account ∧
+    (t.charges = [] ∨ ∃ op value, t.charges = [⟨op, ⟨value, v.commodity⟩⟩] ∧ value.isZero = false) := by
+  unfold baseTxn at h
+  repeat' split at h
+  all_goals first | (simp at h; done) | skip
+  all_goals simp only [Outcome.ok.injEq] at h
+  all_goals subst h
+  all_goals simp [Txn.new, Txn.codeOption, Txn.destAccountOption, Txn.setClearState, Txn.addComment, Txn.setBalance,
+    Txn.addCharge]
+  all_goals (try (split <;> simp_all))
+  all_goals (try (split <;> simp_all))
+  all_goals (try exact ⟨_, _, ⟨rfl, rfl⟩, by assumption⟩)
+
+theorem addRate_ok (t t' : Txn) (key : CommodityPair) (rate : Dec) (h : t.addRate key rate = .ok t') :
+    key.source ≠ key.target ∧ t' = { t with rates := AMap.insert t.rates key.target ⟨rate, key.source⟩ } := by
+  unfold Txn.addRate at h
+  split at h
+  · simp at h
+  · rename_i hne
+    refine ⟨hne, ?_⟩
+    simp only at h
+    cases hg : AMap.get? t.rates key.target with
+    | none => simp [hg] at h; exact h.symm
+    | some ex =>
+      simp only [hg] at h
+      split at h
+      · simp at h
+      · simp at h; exact h.symm
+
+/-- **C16_counter (no conversion).**  Without a conversion the counter-posting is `−amount` in the same commodity,
+and no rate is attached to either posting. -/
+theorem C16_counter_plain (env : CsvEnv) (cfg : CsvCfg) (fm : FieldMap) (rec : List String) (v : RowValues)
+    (txn : Txn) (i : Bool) (h : buildTxn env cfg fm rec v = .ok (txn, i)) (hno : selectedConversion env cfg v = none) :
+    txn.amount = ⟨v.amount, v.commodity⟩ ∧
+    txn.destAmount = { amount := .amt v.amount.negate.toPDec v.commodity, cost := none, lot := {} } ∧
+    txn.srcAmount = { amount := .amt v.amount.toPDec v.commodity, cost := none, lot := {} } := by
+  unfold buildTxn at h
+  split at h <;> try (simp at h; done)
+  rename_i t hb
+  rw [hno] at h
+  simp only [Outcome.ok.injEq, Prod.mk.injEq] at h
+  obtain ⟨ht, _⟩ := h
+  subst ht
+  obtain ⟨ha, _, hr, htr, _, _, _⟩ := baseTxn_spec env cfg fm rec v t hb
+  refine ⟨ha, ?_, ?_⟩
+  · simp [Txn.destAmount, htr, Txn.toPostingAmount, Txn.asSyntaxAmount, Txn.rate, hr, ha, OwnedAmount.negate]
+  · simp [Txn.srcAmount, Txn.toPostingAmount, Txn.asSyntaxAmount, Txn.rate, hr, ha]
+
+/-- **C16_counter (conversion).**  When a conversion applies, with secondary commodity `sc` (the rule's `commodity`,
+else the record's), the counter-posting carries the secondary amount — the statement's own figure (`extract`) or
+`amount × rate` / `amount ÷ rate` (`compute`) — with the sign flag opposite to the primary amount, and `@ rate` is
+attached to the commodity it prices: to the account posting in the *secondary* unit for `price_of_primary`, to the
+counter-posting in the *primary* unit for `price_of_secondary`; the other posting carries no rate. -/
+theorem C16_counter_conversion (base txn : Txn) (conv : Conversion) (amount : Dec) (commodity : String)
+    (rate : Option Dec) (sa : Option Dec) (scField : Option String) (i : Bool)
+    (hbase : base.amount = ⟨amount, commodity⟩) (hr : base.rates = [])
+    (h : applyConversion base conv amount commodity rate sa scField = .ok (txn, i)) :
+    ∃ r sc tr, rate = some r ∧ conv.commodity.or scField = some sc ∧ sc ≠ commodity ∧
+      txn.amount = ⟨amount, commodity⟩ ∧
+      txn.transferredAmount = some ⟨tr, sc⟩ ∧
+      (conv.amount = .extract → sa = some tr) ∧
+      (conv.amount = .compute → conv.rate = .priceOfPrimary → tr = Dec.mul amount r) ∧
+      (conv.amount = .compute → conv.rate = .priceOfSecondary → ∃ flag, Dec.div amount r = .ok (tr, flag)) ∧
+      -- the counter amount: magnitude of the secondary amount, sign flag opposite to the primary
+      (∃ cost, txn.destAmount = { amount := .amt ⟨!amount.neg, tr.mant, tr.scale, none⟩ sc, cost := cost, lot := {} } ∧
+        (conv.rate = .priceOfPrimary → cost = none ∧
+            txn.srcAmount = { amount := .amt amount.toPDec commodity, cost := some (.rate (.amt r.toPDec sc)), lot := {} }) ∧
+        (conv.rate = .priceOfSecondary → cost = some (.rate (.amt r.toPDec commodity)) ∧
+            txn.srcAmount = { amount := .amt amount.toPDec commodity, cost := none, lot := {} })) := by
+  unfold applyConversion at h
+  cases rate with
+  | none => simp at h
+  | some r =>
+    simp only at h
+    cases hsc : conv.commodity.or scField with
+    | none => simp [hsc] at h
+    | some sc =>
+      simp only [hsc] at h
+      cases hrm : conv.rate with
+      | priceOfPrimary =>
+        simp only [hrm] at h
+        split at h <;> try (simp at h; done)
+        rename_i t1 hadd
+        obtain ⟨hne, ht1⟩ := addRate_ok _ _ _ _ hadd
+        simp only at hne
+        cases ham : conv.amount with
+        | extract =>
+          simp only [ham] at h
+          cases sa with
+          | none => simp at h
+          | some tr =>
+            simp only [Outcome.ok.injEq, Prod.mk.injEq] at h
+            obtain ⟨ht, _⟩ := h
+            subst ht; subst ht1
+            refine ⟨r, sc, tr, rfl, rfl, hne, by simp [Txn.setTransferredAmount, hbase], by simp [Txn.setTransferredAmount],
+              by simp, by simp, by simp, none, ?_, ?_, by simp⟩
+            · simp [Txn.destAmount, Txn.setTransferredAmount, Txn.toPostingAmount, Txn.asSyntaxAmount, Txn.amountWithSign,
+                Txn.rate, hr, AMap.insert, AMap.get?, hbase, Dec.setSignPositive, Dec.isSignPositive, Dec.negate, Dec.toPDec, Ne.symm hne]
+            · intro _
+              simp [Txn.srcAmount, Txn.setTransferredAmount, Txn.toPostingAmount, Txn.asSyntaxAmount, Txn.rate, hr,
+                AMap.insert, AMap.get?, hbase]
+        | compute =>
+          simp only [ham, Outcome.ok.injEq, Prod.mk.injEq] at h
+          obtain ⟨ht, _⟩ := h
+          subst ht; subst ht1
+          refine ⟨r, sc, Dec.mul amount r, rfl, rfl, hne, by simp [Txn.setTransferredAmount, hbase],
+            by simp [Txn.setTransferredAmount], by simp, by simp, by simp, none, ?_, ?_, by simp⟩
+          · simp [Txn.destAmount, Txn.setTransferredAmount, Txn.toPostingAmount, Txn.asSyntaxAmount, Txn.amountWithSign,
+              Txn.rate, hr, AMap.insert, AMap.get?, hbase, Dec.setSignPositive, Dec.isSignPositive, Dec.negate, Dec.toPDec, Ne.symm hne]
+          · intro _
+            simp [Txn.srcAmount, Txn.setTransferredAmount, Txn.toPostingAmount, Txn.asSyntaxAmount, Txn.rate, hr,
+              AMap.insert, AMap.get?, hbase]
+      | priceOfSecondary =>
+        simp only [hrm] at h
+        cases hdiv : Dec.div amount r with
+        | err e => simp [hdiv] at h
+        | panic s => simp [hdiv] at h
+        | fuelOut => simp [hdiv] at h
+        | ok qf =>
+          obtain ⟨q, flag⟩ := qf
+          simp only [hdiv] at h
+          split at h <;> try (simp at h; done)
+          rename_i t1 hadd
+          obtain ⟨hne, ht1⟩ := addRate_ok _ _ _ _ hadd
+          simp only at hne
+          cases ham : conv.amount with
+          | extract =>
+            simp only [ham] at h
+            cases sa with
+            | none => simp at h
+            | some tr =>
+              simp only [Outcome.ok.injEq, Prod.mk.injEq] at h
+              obtain ⟨ht, _⟩ := h
+              subst ht; subst ht1
+              refine ⟨r, sc, tr, rfl, rfl, Ne.symm hne, by simp [Txn.setTransferredAmount, hbase],
+                by simp [Txn.setTransferredAmount], by simp, by simp, by simp, some (.rate (.amt r.toPDec commodity)), ?_, by simp, ?_⟩
+              · simp [Txn.destAmount, Txn.setTransferredAmount, Txn.toPostingAmount, Txn.asSyntaxAmount,
+                  Txn.amountWithSign, Txn.rate, hr, AMap.insert, AMap.get?, hbase, Dec.setSignPositive,
+                  Dec.isSignPositive, Dec.negate, Dec.toPDec]
+              · intro _
+                refine ⟨rfl, ?_⟩
+                simp [Txn.srcAmount, Txn.setTransferredAmount, Txn.toPostingAmount, Txn.asSyntaxAmount, Txn.rate, hr,
+                  AMap.insert, AMap.get?, hbase, Ne.symm hne]
+          | compute =>
+            simp only [ham, Outcome.ok.injEq, Prod.mk.injEq] at h
+            obtain ⟨ht, _⟩ := h
+            subst ht; subst ht1
+            refine ⟨r, sc, q, rfl, rfl, Ne.symm hne, by simp [Txn.setTransferredAmount, hbase],
+              by simp [Txn.setTransferredAmount], by simp, by simp, fun _ _ => ⟨flag, hdiv⟩, some (.rate (.amt r.toPDec commodity)), ?_, by simp, ?_⟩
+            · simp [Txn.destAmount, Txn.setTransferredAmount, Txn.toPostingAmount, Txn.asSyntaxAmount,
+                Txn.amountWithSign, Txn.rate, hr, AMap.insert, AMap.get?, hbase, Dec.setSignPositive,
+                Dec.isSignPositive, Dec.negate, Dec.toPDec]
+            · intro _
+              refine ⟨rfl, ?_⟩
+              simp [Txn.srcAmount, Txn.setTransferredAmount, Txn.toPostingAmount, Txn.asSyntaxAmount, Txn.rate, hr,
+                AMap.insert, AMap.get?, hbase, Ne.symm hne]
+
+/-! ## row order -/
+
+/-- the statement is monotone in the declared order -/
+def DeclaredMonotone (o : RowOrder) (l : List Txn) : Prop :=
+  match o with
+  | .oldToNew => l.Pairwise (fun a b => a.date ≤ b.date)
+  | .newToOld => l.Pairwise (fun a b => b.date ≤ a.date)
+
+/-- **C16_order.**  The importer hands over one transaction per dated record, in file order for `old_to_new` and in
+reverse file order for `new_to_old`; so a statement that is monotone in the declared order comes out oldest first. -/
+theorem C16_order (env : CsvEnv) (cfg : CsvCfg) (header : List String) (records : List (List String))
+    (txns : List Txn) (h : csvImport env cfg header records = .ok txns) :
+    ∃ fm ts, FieldMap.tryNew cfg.fields header = .ok fm ∧ csvRows env cfg fm records = .ok ts ∧
+      txns = applyRowOrder cfg.rowOrder (ts.map Prod.fst) ∧
+      (DeclaredMonotone cfg.rowOrder (ts.map Prod.fst) → txns.Pairwise (fun a b => a.date ≤ b.date)) := by
+  unfold csvImport csvImportFlagged at h
+  cases hfm : FieldMap.tryNew cfg.fields header with
+  | err e => simp [hfm, Outcome.map'] at h
+  | panic s => simp [hfm, Outcome.map'] at h
+  | fuelOut => simp [hfm, Outcome.map'] at h
+  | ok fm =>
+    cases hrows : csvRows env cfg fm records with
+    | err e => simp [hfm, hrows, Outcome.map'] at h
+    | panic s => simp [hfm, hrows, Outcome.map'] at h
+    | fuelOut => simp [hfm, hrows, Outcome.map'] at h
+    | ok ts =>
+      simp only [hfm, hrows, Outcome.map', Outcome.ok.injEq] at h
+      have hmap : txns = applyRowOrder cfg.rowOrder (ts.map Prod.fst) := by
+        rw [← h]
+        unfold applyRowOrder
+        cases cfg.rowOrder <;> simp [List.map_reverse]
+      refine ⟨fm, ts, rfl, hrows, hmap, ?_⟩
+      intro hm
+      rw [hmap]
+      unfold DeclaredMonotone at hm
+      unfold applyRowOrder
+      cases ho : cfg.rowOrder with
+      | oldToNew => simpa [ho] using hm
+      | newToOld =>
+        simp only [ho] at hm ⊢
+        exact List.pairwise_reverse.2 hm
+
+/-! ## acceptance by okane's own book-keeping -/
+
+/-- every row carries the running balance of the account: `bᵢ = bᵢ₋₁ + amountᵢ` (starting from `x`) -/
+def ConsistentRunningBalance (c : String) : Rat → List Txn → Prop
+  | _, [] => True
+  | x, t :: ts =>
+    (∃ b, t.balance = some ⟨b, c⟩ ∧ b.toRat = x + t.amount.value.toRat) ∧
+    ConsistentRunningBalance c (x + t.amount.value.toRat) ts
+
+theorem runX_last (c : String) : ∀ (txns : List Txn) (x : Rat), ConsistentRunningBalance c x txns →
+    ∀ t b, txns.getLast? = some t → t.balance = some ⟨b, c⟩ → runX x txns = b.toRat := by
+  intro txns
+  induction txns with
+  | nil => intro x _ t b h; simp at h
+  | cons t ts ih =>
+    intro x h tl b hl hb
+    obtain ⟨⟨b', hb', hv⟩, hrest⟩ := h
+    cases ts with
+    | nil =>
+      simp at hl
+      subst hl
+      rw [hb'] at hb
+      simp at hb
+      subst hb
+      simp [runX, hv]
+    | cons t2 ts2 =>
+      have : (t2 :: ts2).getLast? = some tl := by simpa [List.getLast?_cons_cons] using hl
+      simpa [runX] using ih _ hrest tl b this hb
+
+/-- a balanced run from a consistent running balance, when no row has a charge or a conversion -/
+theorem runOK_of_plain (acct c : String) : ∀ (txns : List Txn) (x : Rat),
+    (∀ t ∈ txns, t.Mono c ∧ t.OtherAccounts acct ∧ t.transferredAmount = none ∧ t.charges = []) →
+    ConsistentRunningBalance c x txns → RunOK acct c x txns := by
+  intro txns
+  induction txns with
+  | nil => intro _ _ _; trivial
+  | cons t ts ih =>
+    intro x hp hb
+    obtain ⟨hm, ho, htr, hch⟩ := hp t (by simp)
+    obtain ⟨hbt, hrest⟩ := hb
+    refine ⟨hm, ?_, ho, Or.inr hbt, ih _ (fun t' h' => hp t' (by simp [h'])) hrest⟩
+    unfold Txn.Balanced Txn.destVal
+    rw [hch, htr]
+    simp only [chargeSum, Dec.negate_toRat]
+    grind
+
+/-- **C16_accepts (rows without charge and without conversion).**  Given that the account held `b₀` beforehand,
+a CSV statement whose running-balance column is consistent imports into a ledger that the book-keeping model
+accepts, and the account ends at the statement's last balance. -/
+theorem C16_accepts_partial (env : CsvEnv) (cfg : CsvCfg) (header : List String) (records : List (List String))
+    (txns : List Txn) (c : String) (date : Date) (b₀ : Dec)
+    (_himp : csvImport env cfg header records = .ok txns)
+    (hc : c ≠ "") (hne : "Equity:Opening" ≠ cfg.account)
+    (hrows : ∀ t ∈ txns, t.Mono c ∧ t.OtherAccounts cfg.account ∧ t.transferredAmount = none)
+    (hnocharge : ∀ t ∈ txns, t.charges = [])
+    (hbal : ConsistentRunningBalance c b₀.toRat txns) :
+    ∃ trs st, ledgerOf cfg.account txns = .ok trs ∧
+      process (Entry.txn (fundTxn cfg.account date b₀ c) :: trs.map Entry.txn) = .ok st ∧
+      Amount.getPart (Balance.get st.bal cfg.account) c = runX b₀.toRat txns ∧
+      (∀ t b, txns.getLast? = some t → t.balance = some ⟨b, c⟩ →
+        Amount.getPart (Balance.get st.bal cfg.account) c = b.toRat) := by
+  have hrun := runOK_of_plain cfg.account c txns b₀.toRat
+    (fun t ht => ⟨(hrows t ht).1, (hrows t ht).2.1, (hrows t ht).2.2, hnocharge t ht⟩) hbal
+  obtain ⟨trs, st, hl, hp, hv⟩ := run_accepts cfg.account c hc hne date b₀ txns hrun
+  exact ⟨trs, st, hl, hp, hv, fun t b hlast hb => by rw [hv]; exact runX_last c txns _ hbal t b hlast hb⟩
+
+/-- The statement at full strength: as `C16_accepts_partial`, but rows may carry a charge. -/
+def C16_accepts_full : Prop :=
+  ∀ (acct c : String) (date : Date) (b₀ : Dec) (txns : List Txn), c ≠ "" → "Equity:Opening" ≠ acct →
+    (∀ t ∈ txns, t.Mono c ∧ t.OtherAccounts acct ∧ t.transferredAmount = none) →
+    ConsistentRunningBalance c b₀.toRat txns →
+    ∃ trs st, ledgerOf acct txns = .ok trs ∧
+      process (Entry.txn (fundTxn acct date b₀ c) :: trs.map Entry.txn) = .ok st ∧
+      Amount.getPart (Balance.get st.bal acct) c = runX b₀.toRat txns
+
+/-- F19's row: `-50.00`, charge `2.00`, balance `950.00` (account held `1000.00`). -/
+def f19Txn : Txn :=
+  { date := ⟨2024, 1, 2⟩, payee := "shop", amount := ⟨⟨true, 5000, 2⟩, "USD"⟩, clearState := some .pending,
+    balance := some ⟨⟨false, 95000, 2⟩, "USD"⟩, charges := [⟨"The Bank", ⟨⟨false, 200, 2⟩, "USD"⟩⟩] }
+
+def f19Ledger : List Entry :=
+  match ledgerOf "Assets:Bank" [f19Txn] with
+  | .ok trs => Entry.txn (fundTxn "Assets:Bank" ⟨2024, 1, 1⟩ ⟨false, 100000, 2⟩ "USD") :: trs.map Entry.txn
+  | _ => []
+
+theorem f19Ledger_rejected : (process f19Ledger).isOk = false := by decide +kernel
+
+/-- **F19.**  The full statement is false: the charge posting is added without adjusting the counter-posting, the
+printed transaction does not balance, and the book-keeping rejects it. -/
+theorem C16_accepts_full_false : ¬ C16_accepts_full := by
+  intro h
+  have hm : f19Txn.Mono "USD" := by
+    refine ⟨rfl, ?_, ?_, rfl, ?_⟩
+    · intro ch hch; simp [f19Txn] at hch; subst hch; rfl
+    · intro tr htr; simp [f19Txn] at htr
+    · intro b hb; simp [f19Txn] at hb; subst hb; rfl
+  have ho : f19Txn.OtherAccounts "Assets:Bank" := by
+    refine ⟨?_, by decide⟩
+    intro fb hfb
+    rcases hfb with h1 | h1 <;> subst h1 <;> decide
+  have hcrb : ConsistentRunningBalance "USD" (⟨false, 100000, 2⟩ : Dec).toRat [f19Txn] :=
+    ⟨⟨⟨false, 95000, 2⟩, rfl, by decide +kernel⟩, trivial⟩
+  obtain ⟨trs, st, hl, hp, _⟩ := h "Assets:Bank" "USD" ⟨2024, 1, 1⟩ ⟨false, 100000, 2⟩ [f19Txn] (by decide) (by decide)
+    (fun t ht => by simp at ht; subst ht; exact ⟨hm, ho, rfl⟩) hcrb
+  have hrej := f19Ledger_rejected
+  unfold f19Ledger at hrej
+  rw [hl] at hrej
+  simp only at hrej
+  rw [hp] at hrej
+  simp [Outcome.isOk] at hrej
+
+/-! ## non-vacuity: the hypotheses are met by concrete statements -/
+
+/-- decoders for the examples: a two-entry number table, ISO dates `2024-01-0d`, no regex match -/
+def exEnv : CsvEnv :=
+  { parseAmt := fun s =>
+      if s = "-50.00" then some ⟨true, 5000, 2⟩ else if s = "2.00" then some ⟨false, 200, 2⟩
+      else if s = "950.00" then some ⟨false, 95000, 2⟩ else if s = "25.5" then some ⟨false, 255, 1⟩
+      else if s = "975.50" then some ⟨false, 97550, 2⟩ else none
+    parseDate := fun s => if s = "2024-01-02" then some ⟨2024, 1, 2⟩ else if s = "2024-01-03" then some ⟨2024, 1, 3⟩ else none
+    cap := fun _ _ => none }
+
+def exCfg (charge : Bool) (order : RowOrder) : CsvCfg :=
+  { account := "Assets:Bank", accountType := .asset, operator := some "The Bank", primary := "USD", conversion := {},
+    rowOrder := order,
+    fields := [(.date, .index 1), (.payee, .label "payee"), (.amount, .index 3), (.balance, .index 5)] ++
+      (if charge then [(.charge, .index 4)] else []),
+    rewrite := [] }
+
+def exHeader : List String := ["date", "payee", "amount", "charge", "balance"]
+
+/-- F19's witness is what the importer model makes of the CSV row `2024-01-02,shop,-50.00,2.00,950.00`. -/
+example : csvImport exEnv (exCfg true .oldToNew) exHeader [["2024-01-02", "shop", "-50.00", "2.00", "950.00"]] = .ok [f19Txn] := by
+  rfl
+
+/-- a statement without charge column, newest row first: imported oldest first, accepted, ends at 975.50 -/
+def exRecords : List (List String) :=
+  [["2024-01-03", "refund", "25.5", "", "975.50"], ["2024-01-02", "shop", "-50.00", "", "950.00"]]
+
+example :
+    (match csvImport exEnv (exCfg false .newToOld) exHeader exRecords with
+     | .ok txns =>
+       txns.map (·.date) == [⟨2024, 1, 2⟩, ⟨2024, 1, 3⟩] &&
+       (match ledgerOf "Assets:Bank" txns with
+        | .ok trs =>
+          (match process (Entry.txn (fundTxn "Assets:Bank" ⟨2024, 1, 1⟩ ⟨false, 100000, 2⟩ "USD") :: trs.map Entry.txn) with
+           | .ok st => Amount.getPart (Balance.get st.bal "Assets:Bank") "USD" == (⟨false, 97550, 2⟩ : Dec).toRat
+           | _ => false)
+        | _ => false)
+     | _ => false) = true := by
+  decide +kernel
+
+end Okane.Import
